@@ -32,52 +32,74 @@ RAW_WRITES_OK = {
 }
 
 
+def _int_name(fn: ast.AST, nm: str) -> bool:
+    """every binding of the local nm in fn is integer arithmetic on constants, int(..) and nm itself"""
+    vals = [a.value for a in own_nodes(fn) if isinstance(a, ast.Assign) and norm(a.targets[0]) == nm] + \
+           [a.value for a in own_nodes(fn) if isinstance(a, ast.AugAssign) and norm(a.target) == nm]
+
+    def num(v):
+        if isinstance(v, ast.Constant):
+            return isinstance(v.value, int)
+        if isinstance(v, ast.Call):
+            return norm(v.func) == "int"
+        if isinstance(v, ast.BinOp):
+            return num(v.left) and num(v.right)
+        if isinstance(v, ast.IfExp):
+            return num(v.body) and num(v.orelse)
+        return isinstance(v, ast.Name) and v.id == nm
+    return bool(vals) and all(num(v) for v in vals)
+
+
+def _generated_label(fn: ast.AST, v: ast.AST) -> bool:
+    """'<letter...>%s' % <integer local of fn>"""
+    return isinstance(v, ast.BinOp) and isinstance(v.op, ast.Mod) and isinstance(v.left, ast.Constant) and isinstance(v.left.value, str) \
+        and v.left.value[:1].isalpha() and v.left.value.replace("%s", "").replace("%d", "").isalnum() and isinstance(v.right, ast.Name) and _int_name(fn, v.right.id)
+
+
+def _ncname_value(mod, fn: ast.AST, v: ast.AST, at: ast.AST, depth: int = 0) -> bool:
+    """the value v, evaluated at the statement `at` of fn, is an NCName by construction: a name used where `is_ncname(<that name>)` is known to hold, a call of a
+    function every return of which is such a value, or an entry of a table (a local / parameter, or an attribute of self) into which only generated labels
+    '<letter...>%s' % <integer> are ever stored (by fn; for an attribute of self by the methods of its class)"""
+    if isinstance(v, ast.Name):
+        return any(isinstance(p, ast.If) and isinstance(p.test, ast.Call) and norm(p.test.func) == "is_ncname" and p.test.args and norm(p.test.args[0]) == v.id
+                   and any(at is x for s_ in p.body for x in ast.walk(s_)) for p in mod.parents(at))
+    if isinstance(v, ast.Subscript) and isinstance(v.value, (ast.Name, ast.Attribute)):
+        table = norm(v.value)
+        scopes = [fn]
+        if isinstance(v.value, ast.Attribute) and norm(v.value.value) == "self":
+            owner = next((p for p in mod.parents(fn) if isinstance(p, ast.ClassDef)), None)
+            if owner is None:
+                return False
+            scopes = [st for st in owner.body if isinstance(st, ast.FunctionDef)]
+        elif not isinstance(v.value, ast.Name):
+            return False
+        stores = [(a.value, sc) for sc in scopes for a in own_nodes(sc) if isinstance(a, ast.Assign) and isinstance(a.targets[0], ast.Subscript) and norm(a.targets[0].value) == table]
+        other = [c for sc in scopes for c in own_nodes(sc) if isinstance(c, ast.Call) and isinstance(c.func, ast.Attribute) and c.func.attr in ("update", "setdefault", "__setitem__")
+                 and norm(c.func.value) == table]
+        return bool(stores) and not other and all(_generated_label(sc, x) for x, sc in stores)
+    if isinstance(v, ast.Call):
+        callee = _resolve_local(mod, fn, v)
+        return callee is not None and _ncname_producing(mod, callee, depth + 1)
+    return False
+
+
 def _ncname_producing(mod, fn: ast.AST, depth: int = 0) -> bool:
-    """every return of fn is an NCName by construction: a name returned under `if is_ncname(<that name>)`, a call of another such function, or an
-    entry of a table all of whose stored values are '<letter...>%s' % <integer name> (generated labels)"""
+    """every return of fn is an NCName by construction (see _ncname_value)"""
     if not isinstance(fn, ast.FunctionDef) or depth > 2:
         return False
     rets = [r for r in own_nodes(fn) if isinstance(r, ast.Return)]
-    if not rets:
+    return bool(rets) and all(r.value is not None and _ncname_value(mod, fn, r.value, r, depth) for r in rets)
+
+
+def _ncname_local(mod, fn: ast.AST, name: str) -> bool:
+    """every binding of the local `name` in fn is a plain assignment of a value that is an NCName by construction: the same condition as _ncname_producing, for a
+    value that reaches its use through a local instead of through the return of a helper"""
+    binds = [n for n in own_nodes(fn) if isinstance(n, ast.Name) and n.id == name and isinstance(n.ctx, (ast.Store, ast.Del))]
+    assigns = [a for a in own_nodes(fn) if isinstance(a, ast.Assign) and len(a.targets) == 1 and isinstance(a.targets[0], ast.Name) and a.targets[0].id == name]
+    a_ = fn.args  # type: ignore[attr-defined]
+    if not assigns or len(assigns) != len(binds) or name in {x.arg for x in a_.posonlyargs + a_.args + a_.kwonlyargs}:
         return False
-
-    def int_name(nm: str) -> bool:
-        vals = [a.value for a in own_nodes(fn) if isinstance(a, ast.Assign) and norm(a.targets[0]) == nm] + \
-               [a.value for a in own_nodes(fn) if isinstance(a, ast.AugAssign) and norm(a.target) == nm]
-        def num(v):
-            if isinstance(v, ast.Constant):
-                return isinstance(v.value, int)
-            if isinstance(v, ast.Call):
-                return norm(v.func) == "int"
-            if isinstance(v, ast.BinOp):
-                return num(v.left) and num(v.right)
-            if isinstance(v, ast.IfExp):
-                return num(v.body) and num(v.orelse)
-            return isinstance(v, ast.Name) and v.id == nm
-        return bool(vals) and all(num(v) for v in vals)
-
-    def label(v: ast.AST) -> bool:
-        return isinstance(v, ast.BinOp) and isinstance(v.op, ast.Mod) and isinstance(v.left, ast.Constant) and isinstance(v.left.value, str) \
-            and v.left.value[:1].isalpha() and v.left.value.replace("%s", "").replace("%d", "").isalnum() and isinstance(v.right, ast.Name) and int_name(v.right.id)
-
-    for r in rets:
-        v = r.value
-        if isinstance(v, ast.Name):
-            guard = [p for p in mod.parents(r) if isinstance(p, ast.If) and isinstance(p.test, ast.Call) and norm(p.test.func) == "is_ncname" and p.test.args and norm(p.test.args[0]) == v.id
-                     and any(r is x for s_ in p.body for x in ast.walk(s_))]
-            if not guard:
-                return False
-        elif isinstance(v, ast.Subscript) and isinstance(v.value, ast.Name):
-            stores = [a.value for a in own_nodes(fn) if isinstance(a, ast.Assign) and isinstance(a.targets[0], ast.Subscript) and norm(a.targets[0].value) == v.value.id]
-            if not stores or not all(label(x) for x in stores):
-                return False
-        elif isinstance(v, ast.Call):
-            callee = _resolve_local(mod, fn, v)
-            if callee is None or not _ncname_producing(mod, callee, depth + 1):
-                return False
-        else:
-            return False
-    return True
+    return all(_ncname_value(mod, fn, a.value, a) for a in assigns)
 
 
 def _resolve_local(mod, ctx_fn: ast.AST, call: ast.Call):
@@ -93,68 +115,236 @@ def _resolve_local(mod, ctx_fn: ast.AST, call: ast.Call):
     return None
 
 
-def run(repo: Repo, rep: Report) -> None:
-    rep.extra["explanation"] = EXPLANATION
-    # ------------------------------------------------------------------ (a)
-    rep.rule("C05.a-nt-literal-escapes",
-             "nt._quoteLiteral builds every literal from _quote_encode(l_); _quote_encode doubles the backslash first and escapes \", LF and CR; "
-             "the N-Quads row writer reuses the same functions", floor=5)
-    nt = repo.mod("rdflib.plugins.serializers.nt")
-    qe = nt.func("_quote_encode")
-    best = []
-    for n in ast.walk(qe):
-        _, ch = _replace_chain(n)
-        if len(ch) > len(best):
-            best = ch
-    srcs = [a for a, _ in best]
-    ok = bool(best) and srcs[0] == "\\" and {"\\", "\n", "\r", '"'} <= set(srcs)
-    rep.ob("C05.a-nt-literal-escapes", nt, "_quote_encode", "replace chain %s" % srcs, ok,
-           "backslash first; \", \\n, \\r covered" if ok else "the chain %s does not start with the backslash or misses one of \" \\\\ LF CR: the output is not a valid STRING_LITERAL_QUOTE" % srcs, node=qe)
-    for a, b in best:
-        okp = (a == "\\" and b == "\\\\") or (len(a) == 1 and len(b) == 2 and b[0] == "\\" and b[1] in 'tbnrf"\'\\')
-        rep.ob("C05.a-nt-literal-escapes", nt, "_quote_encode", "%r -> %r" % (a, b), okp, "an ECHAR of the grammar" if okp else "%r is not an ECHAR escape" % b, node=qe)
-    ql = nt.func("_quoteLiteral")
-    enc_names = {norm(n.targets[0]) for n in own_nodes(ql) if isinstance(n, ast.Assign) and isinstance(n.value, ast.Call) and norm(n.value.func) == "_quote_encode"}
-    rets = [r for r in own_nodes(ql) if isinstance(r, ast.Return)]
-    ok = bool(rets) and all(any(isinstance(x, ast.Name) and x.id in enc_names for x in ast.walk(r)) or "_quote_encode(" in norm(r) for r in rets)
-    rep.ob("C05.a-nt-literal-escapes", nt, "_quoteLiteral", "every return uses the _quote_encode result", ok, "" if ok else "a return of _quoteLiteral bypasses _quote_encode", node=ql)
-    row = nt.func("_nt_row")
-    ok = any(isinstance(c, ast.Call) and norm(c.func) == "_quoteLiteral" for c in ast.walk(row))
-    rep.ob("C05.a-nt-literal-escapes", nt, "_nt_row", "literals go through _quoteLiteral", ok, "" if ok else "_nt_row no longer quotes literals with _quoteLiteral", node=row)
-    nq = repo.mod("rdflib.plugins.serializers.nquads")
-    rowq = nq.func("_nq_row")
-    ok = any(isinstance(c, ast.Call) and norm(c.func) in ("_quoteLiteral", "_nt_row") for c in ast.walk(rowq))
-    rep.ob("C05.a-nt-literal-escapes", nq, "_nq_row", "literals go through the N-Triples quoting", ok, "" if ok else "_nq_row no longer quotes literals with the N-Triples functions", node=rowq)
-    rep.analysed("rdflib/plugins/serializers/nt.py:_quote_encode", "rdflib/plugins/serializers/nt.py:_quoteLiteral", "rdflib/plugins/serializers/nt.py:_nt_row", "rdflib/plugins/serializers/nquads.py:_nq_row")
+NT_MODULE, NQ_MODULE = "rdflib.plugins.serializers.nt", "rdflib.plugins.serializers.nquads"
+# the public entry points of the two line-based writers of the property (NT11Serializer inherits the first)
+ROW_WRITERS = ((NT_MODULE, "NTSerializer.serialize"), (NQ_MODULE, "NQuadsSerializer.serialize"))
+FORBIDDEN_RAW = ("\\", '"', "\n", "\r")  # what STRING_LITERAL_QUOTE does not allow unescaped
 
-    # (a2) rows are assembled once, from a constant template
-    rep.rule("C05.a2-rows-from-constant-templates",
-             "in the N-Triples / N-Quads serializers every %-format template is a string constant (data never becomes part of a format string), "
-             "and serialised text is never post-edited with str.replace() outside the literal escape chain _quote_encode", floor=4)
-    for mod in (nt, nq):
-        for q, f in mod.functions():
-            if "." in q and isinstance(mod.defs.get(q.rsplit(".", 1)[0]), ast.FunctionDef):
+
+def _top_functions(mod):
+    """(qualified name, def) of the functions of a module that are not nested in another function (their nested defs are read with them)"""
+    for q, f in mod.functions():
+        if "." in q and isinstance(mod.defs.get(q.rsplit(".", 1)[0]), ast.FunctionDef):
+            continue
+        yield q, f
+
+
+class _LiteralWriting:
+    """Value flow of the lexical form of a Literal into the text of a row, in the N-Triples / N-Quads serializer modules.
+
+    * an ESCAPED, QUOTED value is an expression that puts one value between two double quotes (%-format, f-string, +, str.format) where that value is an
+      escape application: a chain of str.replace calls with constant arguments, or str.translate with a constant table (possibly named by a local bound once);
+    * an expression CARRIES the escaped form if it contains such a value, a local all of whose bindings carry it, or a call of a function every return of which
+      carries it;
+    * a LITERAL SITE is an isinstance(X, Literal) test; it is in order if, where the test is known to be true, X is handed to a function every return of which
+      carries the escaped form (or is escaped and quoted on the spot)."""
+
+    def __init__(self, repo: Repo, mods):
+        from vlib import h_c05 as H
+
+        self.H, self.repo, self.mods = H, repo, mods
+        self._qe: dict[int, object] = {}
+        self._yq: dict[int, bool] = {}
+        self.sites: list = []  # (mod, qual, fn, quoted expression, EscapeMap)
+        for mod in mods:
+            for q, f in _top_functions(mod):
+                for n in own_nodes(f, include_nested=True):
+                    em = self.quoted_escape(mod, f, n)
+                    if em is not None:
+                        self.sites.append((mod, q, f, n, em))
+
+    def quoted_escape(self, mod, fn, e):
+        if id(e) not in self._qe:
+            slot = self.H.quoted_slot(e) if isinstance(e, (ast.BinOp, ast.JoinedStr, ast.Call)) else None
+            self._qe[id(e)] = self.H.escape_map(self.repo, mod, fn, slot) if slot is not None else None
+        return self._qe[id(e)]
+
+    def escape_calls(self) -> set:
+        """the str.replace calls that make up the escape chains of the escaped, quoted values"""
+        return {id(c) for _, _, _, _, em in self.sites for c in em.calls}
+
+    def carries(self, mod, fn, e, depth: int = 0, busy: frozenset = frozenset()) -> bool:
+        for x in ast.walk(e):
+            if self.quoted_escape(mod, fn, x) is not None:
+                return True
+            if isinstance(x, ast.Name) and isinstance(x.ctx, ast.Load) and x.id not in busy:
+                vals = self.H.local_defs(fn, x.id)
+                if vals and all(self.carries(mod, fn, v, depth, busy | {x.id}) for v in vals):
+                    return True
+            if isinstance(x, ast.Call):
+                r = self.callee(mod, fn, x)
+                if r is not None and self.yields_quoted(r[0], r[1], depth + 1):
+                    return True
+        return False
+
+    def callee(self, mod, fn, call: ast.Call):
+        """(module, def) of the function a call denotes: a bare name (module-level def, possibly imported from a sibling module) or a method of the own class"""
+        if isinstance(call.func, ast.Name):
+            return self.H.resolve_function(self.repo, mod, call.func.id)
+        d = _resolve_local(mod, fn, call)
+        return (mod, d) if d is not None else None
+
+    def yields_quoted(self, mod, fn, depth: int = 0) -> bool:
+        """every return of fn carries the escaped, quoted form"""
+        if depth > 4:
+            return False
+        if id(fn) not in self._yq:
+            self._yq[id(fn)] = False  # a recursive definition does not count
+            rets = [r for r in own_nodes(fn) if isinstance(r, ast.Return)]
+            self._yq[id(fn)] = bool(rets) and all(r.value is not None and self.carries(mod, fn, r.value, depth) for r in rets)
+        return self._yq[id(fn)]
+
+    def literal_sites(self):
+        """(mod, qual, fn, isinstance test, [(rendering expression, writer function or None, in order)])"""
+        H = self.H
+        for mod in self.mods:
+            for q, f in _top_functions(mod):
+                nodes = list(own_nodes(f, include_nested=True))
+                for t in nodes:
+                    if not (isinstance(t, ast.Call) and isinstance(t.func, ast.Name) and t.func.id == "isinstance" and len(t.args) == 2):
+                        continue
+                    types = t.args[1].elts if isinstance(t.args[1], ast.Tuple) else [t.args[1]]
+                    if not any(norm(x).split(".")[-1] == "Literal" for x in types):
+                        continue
+                    subj = norm(t.args[0])
+                    found = []
+                    for n in nodes:
+                        writer, ok = None, None
+                        if isinstance(n, ast.Call) and n is not t and any(norm(a) == subj for a in n.args):
+                            r = self.callee(mod, f, n)
+                            if r is None:
+                                continue
+                            writer, ok = r, self.yields_quoted(r[0], r[1])
+                        else:
+                            # escaped and quoted on the spot: the escape is applied to X itself (or to str(X))
+                            em = self.quoted_escape(mod, f, n)
+                            root = em.root if em is not None else None
+                            if isinstance(root, ast.Call) and isinstance(root.func, ast.Name) and root.func.id == "str" and len(root.args) == 1:
+                                root = root.args[0]
+                            if root is None or norm(root) != subj:
+                                continue
+                            ok = True
+                        if any(g is t for g in H.positive_guards(mod, f, n)):
+                            found.append((n, writer, ok))
+                    yield mod, q, f, t, found
+
+    def reaches(self, mod, fn, good: set, depth: int = 0, seen: set | None = None) -> bool:
+        """fn, or a function of the serializer modules it calls, is one of `good`"""
+        seen = seen if seen is not None else set()
+        if id(fn) in good:
+            return True
+        if id(fn) in seen or depth > 5:
+            return False
+        seen.add(id(fn))
+        for c in own_nodes(fn, include_nested=True):
+            if not isinstance(c, ast.Call):
                 continue
-            for n in own_nodes(f, include_nested=True):
+            r = self.callee(mod, fn, c)
+            if r is not None and any(r[0] is m for m in self.mods) and self.reaches(r[0], r[1], good, depth + 1, seen):
+                return True
+        return False
+
+
+def nt_output_rules(repo: Repo, rep: Report) -> None:
+    # ------------------------------------------------------------------ (a)
+    R = "C05.a-nt-literal-escapes"
+    rep.rule(R,
+             "N-Triples / N-Quads writers: wherever the serializer modules know a term to be a Literal (isinstance test), its text comes from a function every return of "
+             "which carries the lexical form escaped and put between double quotes; every such escape (a str.replace chain, or one str.translate with a constant table) "
+             "covers \", \\, LF and CR with ECHAR escapes, and a chain doubles the backslash first; NTSerializer.serialize and NQuadsSerializer.serialize reach such a place", floor=7)
+    nt, nq = repo.mod(NT_MODULE), repo.mod(NQ_MODULE)
+    lw = _LiteralWriting(repo, (nt, nq))
+    if not lw.sites:
+        rep.ob(R, nt, "<module>", "a value escaped and put between double quotes", False,
+               "no expression of the N-Triples / N-Quads serializer modules puts an escaped text (str.replace chain / str.translate with a constant table) between double quotes: "
+               "literals are not written as STRING_LITERAL_QUOTE", node=nt.tree)
+    for mod, q, f, site, em in lw.sites:
+        rep.analysed("%s:%s" % (mod.rel, q))
+        if em.pairs is None:
+            rep.ob(R, mod, q, "translate(%s)" % norm(em.node.args[0])[:60], False, "the translation table is not a constant this analysis can fold: which characters are escaped is unknown", node=site)
+            continue
+        srcs = [a for a, _ in em.pairs]
+        covered = set(FORBIDDEN_RAW) <= set(srcs)
+        if em.kind == "chain":
+            ok = covered and srcs[0] == "\\"
+            rep.ob(R, mod, q, "replace chain %s" % srcs, ok,
+                   "backslash first; \", \\n, \\r covered" if ok else "the chain %s does not start with the backslash or misses one of \" \\\\ LF CR: the output is not a valid STRING_LITERAL_QUOTE" % srcs, node=site)
+        else:
+            ok = covered and len(set(srcs)) == len(srcs)
+            rep.ob(R, mod, q, "translation table for %s" % sorted(srcs), ok,
+                   "one pass over the text (an escape is never escaped again); \", \\, \\n, \\r covered" if ok else "the table %s misses one of \" \\\\ LF CR: the output is not a valid STRING_LITERAL_QUOTE" % sorted(srcs), node=site)
+        for a, b in em.pairs:
+            okp = b is not None and ((a == "\\" and b == "\\\\") or (len(a) == 1 and len(b) == 2 and b[0] == "\\" and b[1] in 'tbnrf"\'\\'))
+            rep.ob(R, mod, q, "%r -> %r" % (a, b), okp, "an ECHAR of the grammar" if okp else "%r is not an ECHAR escape" % (b,), node=site)
+    good_fns: set = set()
+    writers: dict = {}
+    for mod, q, f, t, found in lw.literal_sites():
+        rep.analysed("%s:%s" % (mod.rel, q))
+        ok = any(o for _, _, o in found)
+        if ok:
+            good_fns.add(id(f))
+        for _, w, o in found:
+            if w is not None:
+                writers.setdefault(id(w[1]), (w, o))
+        rep.ob(R, mod, q, "%s: the literal is written by %s" % (norm(t), sorted({norm(n.func) if w is not None else "an escape on the spot" for n, w, _ in found}) or "nothing that quotes it"), ok,
+               "escaped and quoted" if ok else "where %s is a Literal it is not handed to a function every return of which carries the escaped, quoted lexical form: the row is not valid N-Triples for "
+               "a literal containing \" \\ LF or CR (or is written in Turtle shorthand)" % norm(t.args[0]), node=t)
+    for (wm, wf), o in writers.values():
+        rep.analysed("%s:%s" % (wm.rel, wm.qual_of(wf)))
+        rep.ob(R, wm, wm.qual_of(wf), "every return carries the escaped, quoted lexical form", o, "" if o else "a return of %s bypasses the escape" % wf.name, node=wf)
+    for modname, qual in ROW_WRITERS:
+        mod = repo.mod(modname)
+        f = mod.func(qual)
+        rep.analysed("%s:%s" % (mod.rel, qual))
+        ok = lw.reaches(mod, f, good_fns)
+        rep.ob(R, mod, qual, "reaches a place where a Literal is escaped and quoted", ok, "" if ok else
+               "%s no longer reaches an isinstance(.., Literal) test under which the literal is written with the N-Triples escape: literals are written like other terms" % qual, node=f)
+
+    # (a2) rows are assembled once, from a template that is part of the source
+    R2 = "C05.a2-rows-from-constant-templates"
+    rep.rule(R2,
+             "in the N-Triples / N-Quads serializers every string is assembled by a formatting operation whose template is part of the source (an f-string, or a string constant "
+             "on the left of % / as receiver of .format(): data never becomes part of a format string), and serialised text is never post-edited with str.replace(): the only "
+             "str.replace calls are the members of the escape chains of rule a (applied to the lexical form before it is quoted)", floor=4)
+    escape_calls = lw.escape_calls()
+    for mod in (nt, nq):
+        for q, f in _top_functions(mod):
+            nodes = list(own_nodes(f, include_nested=True))
+            specs = {id(n.format_spec) for n in nodes if isinstance(n, ast.FormattedValue) and n.format_spec is not None}
+
+            def _const(v):
+                return (isinstance(v, ast.Constant) and isinstance(v.value, str)) or (isinstance(v, ast.IfExp) and _const(v.body) and _const(v.orelse))
+
+            def _template_ok(t: ast.AST) -> bool:
+                if isinstance(t, ast.Constant):
+                    return isinstance(t.value, str)
+                if isinstance(t, ast.Name):
+                    # a name bound only to string constants (or a conditional choice between constants)
+                    vals = [x.value for x in nodes if isinstance(x, ast.Assign) and any(isinstance(tt, ast.Name) and tt.id == t.id for tt in x.targets)]
+                    return bool(vals) and all(_const(v) for v in vals)
+                return False
+
+            for n in nodes:
                 if isinstance(n, ast.BinOp) and isinstance(n.op, ast.Mod):
-                    tf = None
-                    is_str_fmt = isinstance(n.left, (ast.Constant, ast.JoinedStr, ast.BinOp, ast.Name, ast.Attribute, ast.Call))
                     if isinstance(n.left, ast.Constant) and not isinstance(n.left.value, str):
                         continue
-                    ok = isinstance(n.left, ast.Constant) and isinstance(n.left.value, str)
-                    if not ok and isinstance(n.left, ast.Name):
-                        # a name bound only to string constants (or a conditional choice between constants)
-                        vals = [x.value for x in own_nodes(f, include_nested=True) if isinstance(x, ast.Assign) and any(isinstance(t, ast.Name) and t.id == n.left.id for t in x.targets)]
-                        def _const(v):
-                            return (isinstance(v, ast.Constant) and isinstance(v.value, str)) or (isinstance(v, ast.IfExp) and _const(v.body) and _const(v.orelse))
-                        ok = bool(vals) and all(_const(v) for v in vals)
                     # a non-constant left operand of % is string formatting only if it is str-typed; arithmetic % does not occur in these modules
-                    rep.ob("C05.a2-rows-from-constant-templates", mod, q, "%s %% (...)" % norm(n.left)[:50], ok,
+                    ok = _template_ok(n.left)
+                    rep.ob(R2, mod, q, "%s %% (...)" % norm(n.left)[:50], ok,
                            "constant template" if ok else "the format template %s is built from data: a `%%` inside an IRI (percent-encoding) or literal is read as a conversion specifier" % norm(n.left)[:60], node=n)
-                if isinstance(n, ast.Call) and isinstance(n.func, ast.Attribute) and n.func.attr == "replace" and q != "_quote_encode":
-                    rep.ob("C05.a2-rows-from-constant-templates", mod, q, n, False,
+                elif isinstance(n, ast.JoinedStr) and id(n) not in specs:
+                    if any(isinstance(v, ast.FormattedValue) for v in n.values):
+                        rep.ob(R2, mod, q, norm(n)[:70], True, "f-string: the template is part of the source", node=n)
+                elif isinstance(n, ast.Call) and isinstance(n.func, ast.Attribute) and n.func.attr in ("format", "format_map"):
+                    ok = _template_ok(n.func.value)
+                    rep.ob(R2, mod, q, "(%s).format(...)" % norm(n.func.value)[:50], ok,
+                           "constant template" if ok else "the format template %s is built from data: a `{` inside an IRI or literal is read as a replacement field" % norm(n.func.value)[:60], node=n)
+                if isinstance(n, ast.Call) and isinstance(n.func, ast.Attribute) and n.func.attr == "replace" and id(n) not in escape_calls:
+                    rep.ob(R2, mod, q, n, False,
                            "serialised text is edited with .replace(): the pattern also matches inside literals / IRIs of the row", node=n)
 
+
+def xml_escape_rules(repo: Repo, rep: Report) -> None:
     # ------------------------------------------------------------------ (b)
     rep.rule("C05.b-xml-escape-discipline",
              "every non-constant operand interpolated into text passed to write()/stream.write() in xmlwriter.XMLWriter and rdfxml.XMLSerializer is "
@@ -238,6 +428,8 @@ def run(repo: Repo, rep: Report) -> None:
                                 return "private attribute holding only constants / computed prefixes / generated labels"
                         finally:
                             busy.discard(e.attr)
+                    if isinstance(e, ast.Name) and _ncname_local(mod, f, e.id):
+                        return "NCName by construction (every binding of %s)" % e.id
                     if isinstance(e, ast.Name) and e.id not in busy:
                         # a local built from safe pieces ("%s:Description" % rdf)
                         busy.add(e.id)
@@ -348,42 +540,113 @@ def run(repo: Repo, rep: Report) -> None:
                                         why = "inside a CDATA section entered only when ']]>' not in the text"
                         if why is None:
                             why = {(x, canon(y)): r for (x, y), r in RAW_WRITES_OK.items()}.get((q, canon(c)))
+                        if why is None:
+                            # the structural form of that table row, whatever the stream is called: the written value X is known, where it is written, to be
+                            # a literal whose parsed value is an XML document (isinstance(X.value, ...Document) holds there)
+                            from vlib import h_c05 as _H
+
+                            for g in _H.positive_guards(mod, f, c):
+                                if isinstance(g, ast.Call) and isinstance(g.func, ast.Name) and g.func.id == "isinstance" and len(g.args) == 2 \
+                                        and norm(g.args[0]) == norm(a) + ".value" and norm(g.args[1]).split(".")[-1] == "Document":
+                                    why = "rdf:XMLLiteral whose value is a parsed XML document (%s): well-formed by construction" % norm(g)
                         rep.ob("C05.b-xml-escape-discipline", mod, q, norm(c)[:90], why is not None,
                                why if why else "raw write of %s: not sanitised and not table-listed" % norm(a), node=c)
 
     xmlns_agreement(repo, rep, "C05.b2-xmlns-declared-as-used")
 
+
+JSON_WRITERS = (("rdflib.plugins.serializers.jsonld", "JsonLDSerializer.serialize"), ("rdflib.plugins.sparql.results.jsonresults", "JSONResultSerializer.serialize"),
+                ("rdflib.plugins.serializers.hext", "HextuplesSerializer.serialize"))
+
+
+def _resolve_call(mod, ctx_fn: ast.AST, call: ast.Call):
+    """(FunctionDef of this module that the call denotes, whether its first parameter is bound by the call expression itself): `f(..)`, `self.m(..)`,
+    `Class.m(..)` / `cls.m(..)`"""
+    d = _resolve_local(mod, ctx_fn, call)
+    if d is None and isinstance(call.func, ast.Attribute) and isinstance(call.func.value, ast.Name):
+        recv = call.func.value.id
+        owner = mod.defs.get(recv)
+        if not isinstance(owner, ast.ClassDef) and recv == "cls":
+            q = mod.qual_of(ctx_fn)
+            owner = mod.defs.get(q.rsplit(".", 1)[0]) if "." in q else None
+        if isinstance(owner, ast.ClassDef):
+            d = next((st for st in owner.body if isinstance(st, ast.FunctionDef) and st.name == call.func.attr), None)
+    if d is None:
+        return None, False
+    from vlib import h_c05 as H
+
+    is_method = isinstance(mod.parent.get(id(d)), ast.ClassDef)
+    return d, is_method and not H.is_static(d)
+
+
+def _is_dumps(x: ast.AST) -> bool:
+    return isinstance(x, ast.Call) and norm(x.func).endswith("dumps")
+
+
+def _stream_writes(mod, fn: ast.AST, is_stream, dumped_params: set, helper_dumps: set, depth: int, seen: set):
+    """(function, `<stream>.write(x)` call, x is text produced by dumps()) for every write to the output stream in fn and in the functions of the module to which fn
+    hands the stream on (the parameter that receives it names the stream there; a parameter that receives dumps() text names such text there)"""
+    from vlib import h_c05 as H
+
+    if id(fn) in seen or depth > 4:
+        return
+    seen.add(id(fn))
+    dump_names = set(dumped_params)
+    for n in own_nodes(fn):
+        if isinstance(n, ast.Assign) and isinstance(n.targets[0], ast.Name):
+            if any(_is_dumps(x) or (isinstance(x, ast.Call) and norm(x.func) in helper_dumps) for x in ast.walk(n.value)):
+                dump_names.add(n.targets[0].id)
+
+    def dumped(a: ast.AST) -> bool:
+        return bool({x.id for x in ast.walk(a) if isinstance(x, ast.Name)} & dump_names) or any(_is_dumps(x) for x in ast.walk(a))
+
+    for c in own_nodes(fn):
+        if not isinstance(c, ast.Call):
+            continue
+        if isinstance(c.func, ast.Attribute) and c.func.attr == "write" and is_stream(c.func.value):
+            if c.args:
+                yield fn, c, dumped(c.args[0])
+            continue
+        handed = [a for a in list(c.args) + [k.value for k in c.keywords] if is_stream(a)]
+        if not handed:
+            continue
+        callee, bound = _resolve_call(mod, fn, c)
+        if callee is None:
+            continue
+        a_ = callee.args
+        names = [x.arg for x in a_.posonlyargs + a_.args + a_.kwonlyargs]
+        got = {p_: H.bound_arg(c, callee, p_, bound) for p_ in (names[1:] if bound else names)}
+        streams = {p_ for p_, e in got.items() if e is not None and is_stream(e)}
+        texts = {p_ for p_, e in got.items() if e is not None and not is_stream(e) and dumped(e)}
+        if streams:
+            yield from _stream_writes(mod, callee, lambda e, _s=streams: norm(e) in _s, texts, helper_dumps, depth + 1, seen)
+
+
+def json_rules(repo: Repo, rep: Report) -> None:
     # ------------------------------------------------------------------ (c)
-    rep.rule("C05.c-json-by-dumps", "JSON text written by the JSON-LD, HexTuples and SPARQL-JSON serializers comes from json.dumps / orjson.dumps", floor=5)
-    for modname, qual in (("rdflib.plugins.serializers.jsonld", "JsonLDSerializer.serialize"), ("rdflib.plugins.sparql.results.jsonresults", "JSONResultSerializer.serialize"),
-                          ("rdflib.plugins.serializers.hext", "HextuplesSerializer.serialize")):
+    rep.rule("C05.c-json-by-dumps", "JSON text written by the JSON-LD, HexTuples and SPARQL-JSON serializers comes from json.dumps / orjson.dumps: every write() to the output stream, "
+             "in serialize() or in a function of the module it hands the stream to, writes text that dumps() produced", floor=5)
+    for modname, qual in JSON_WRITERS:
         mod = repo.mod(modname)
         f = mod.func(qual)
         rep.analysed("%s:%s" % (mod.rel, qual))
-        dump_names = set()
         helper_dumps = set()
         # methods of the class that return dumps(...) results
         cls = qual.split(".")[0]
         for m, mf in mod.methods(cls).items():
             rets = [r for r in own_nodes(mf) if isinstance(r, ast.Return) and r.value is not None]
-            names = {norm(n.targets[0]) for n in own_nodes(mf) if isinstance(n, ast.Assign) and any(isinstance(x, ast.Call) and norm(x.func).endswith("dumps") for x in ast.walk(n.value))}
+            names = {norm(n.targets[0]) for n in own_nodes(mf) if isinstance(n, ast.Assign) and any(_is_dumps(x) for x in ast.walk(n.value))}
             rets = [r for r in rets if not (isinstance(r.value, ast.Constant) and r.value.value is None)]
-            if rets and all(any(isinstance(x, ast.Call) and norm(x.func).endswith("dumps") for x in ast.walk(r.value)) or (isinstance(r.value, ast.Name) and r.value.id in names) for r in rets):
+            if rets and all(any(_is_dumps(x) for x in ast.walk(r.value)) or (isinstance(r.value, ast.Name) and r.value.id in names) for r in rets):
                 helper_dumps.add("self." + m)
-        for n in own_nodes(f):
-            if isinstance(n, ast.Assign) and isinstance(n.targets[0], ast.Name):
-                if any(isinstance(x, ast.Call) and (norm(x.func).endswith("dumps") or norm(x.func) in helper_dumps) for x in ast.walk(n.value)):
-                    dump_names.add(n.targets[0].id)
         nw = 0
-        for c in own_nodes(f):
-            if isinstance(c, ast.Call) and norm(c.func).endswith("stream.write") and c.args:
-                nw += 1
-                a = c.args[0]
-                roots = {x.id for x in ast.walk(a) if isinstance(x, ast.Name)}
-                ok = bool(roots & dump_names) or any(isinstance(x, ast.Call) and norm(x.func).endswith("dumps") for x in ast.walk(a))
-                rep.ob("C05.c-json-by-dumps", mod, qual, c, ok, "text from dumps()" if ok else "JSON output text %s is not the result of json.dumps/orjson.dumps" % norm(a)[:60], node=c)
+        for wf, c, ok in _stream_writes(mod, f, lambda e: norm(e).endswith("stream"), set(), helper_dumps, 0, set()):
+            nw += 1
+            where = qual if wf is f else mod.qual_of(wf)
+            rep.analysed("%s:%s" % (mod.rel, where))
+            rep.ob("C05.c-json-by-dumps", mod, where, c, ok, "text from dumps()" if ok else "JSON output text %s is not the result of json.dumps/orjson.dumps" % norm(c.args[0])[:60], node=c)
         if nw == 0:
-            raise AnalysisError("%s: no stream.write found" % qual)
+            raise AnalysisError("%s: no write to the output stream found (in it or in the functions it hands the stream to)" % qual)
     # (c2) non-finite floats never reach json.dumps as numbers
     rep.rule("C05.c2-no-nan-in-json",
              "a JSON serializer either calls json.dumps(..., allow_nan=False), or converts literals to native Python numbers (toPython()) only under "
@@ -406,7 +669,17 @@ def run(repo: Repo, rep: Report) -> None:
                    "native conversion guarded by a finiteness test" if guarded else
                    "a literal's Python value (possibly float('nan') / inf) enters the JSON tree and json.dumps is not called with allow_nan=False: the output contains bare NaN / Infinity", node=c)
 
-    iri_resolution_rule(repo, rep)
+
+def run(repo: Repo, rep: Report) -> None:
+    """the first rule layers: each group of rules is a layer of its own, so that a lost anchor of one group is judged (on the tree and on its equivalent views)
+    without taking the rules of the other groups with it"""
+    from vlib.core import layer
+
+    rep.extra["explanation"] = EXPLANATION
+    layer(rep, nt_output_rules, repo)
+    layer(rep, xml_escape_rules, repo)
+    layer(rep, json_rules, repo)
+    layer(rep, iri_resolution_rule, repo)
 
 
 def xmlns_agreement(repo: Repo, rep: Report, RULE: str) -> None:
@@ -466,11 +739,13 @@ def iri_resolution_rule(repo: Repo, rep: Report) -> None:
                    "<http://example/o;> from the same spelling" % what, node=c)
 
 
+from vlib.core import layer as _layer  # noqa: E402
+
 _run_base = run
 
 
 def run(repo: Repo, rep: Report) -> None:  # noqa: F811
-    _run_base(repo, rep)
+    _layer(rep, _run_base, repo)
     from vlib import memo
 
     rep.rule("C05.e-parser-memos-key-complete",
@@ -517,7 +792,7 @@ _run_base2 = run
 
 
 def run(repo: Repo, rep: Report) -> None:  # noqa: F811
-    _run_base2(repo, rep)
+    _layer(rep, _run_base2, repo)
     rx = repo.mod("rdflib.plugins.serializers.rdfxml")
     rep.rule("C05.g-prettyxml-declares-the-prefix-it-writes",
              "PrettyXMLSerializer writes the names of the RDF vocabulary (rdf:RDF, rdf:Description, rdf:about ...) through XMLWriter.qname, i.e. with the prefix the graph's namespace "
@@ -543,7 +818,7 @@ _run_base3 = run
 
 
 def run(repo: Repo, rep: Report) -> None:  # noqa: F811
-    _run_base3(repo, rep)
+    _layer(rep, _run_base3, repo)
     rep.rule("C05.h-inherited-containers-are-copied-before-they-are-extended",
              "in the parser modules, a function that sets an attribute of one object from the same-named attribute of ANOTHER object (`current.declared = parent.declared`: per-element "
              "state inherited down the element stack) and then extends it in place (subscript store, update/append/add) takes a copy: without it the entries made for one element "
@@ -1080,27 +1355,335 @@ _run_base4 = run
 
 
 def run(repo: Repo, rep: Report) -> None:  # noqa: F811
-    _run_base4(repo, rep)
+    _layer(rep, _run_base4, repo)
     rep.extra["explanation"] = rep.extra.get("explanation", "") + (
         " Parser side (necessary conditions only, rules i-u): the token patterns of the N-Triples family and of the Turtle/N3 scanner agree with the grammars where a "
         "class-level comparison decides it (optional separators, name characters of blank node labels, ASCII-only exclusions, CR = LF as line end); byte sources are decoded "
         "without newline translation; RDF/XML attribute IRIs and the document id pass through absolutize(); the Turtle scanner's look-behind / look-ahead / skipSpace "
         "obligations at three token boundaries; the string IRI resolver decides on RFC 3986 components; normpath is kept off empty paths; a collection cell is linked and "
         "filled in one iteration. That the parsers accept EVERY legal document remains undecided.")
-    token_regex_rules(repo, rep)
-    input_source_rules(repo, rep)
-    rdfxml_rules(repo, rep)
-    document_id_rule(repo, rep)
-    n3_scanner_rules(repo, rep)
-    string_resolver_rules(repo, rep)
-    list_building_rule(repo, rep)
+    for group in (token_regex_rules, input_source_rules, rdfxml_rules, document_id_rule, n3_scanner_rules, string_resolver_rules, list_building_rule):
+        _layer(rep, group, repo)  # a layer each: a lost anchor of one group does not take the others with it
+
+
+# ---------------------------------------------------------------------------------------------------------------------
+# third layer (rules v-z): the source handed to parse(), document strings that become prefixes, XML literals, and the two
+# decisions of the JSON-LD parser that depend on where a node object stands.  Helpers: vlib/h_c05.py (last section)
+# ---------------------------------------------------------------------------------------------------------------------
+# calls that take a path or an IRI: a stream's `name` reaches them only as a string
+PATH_OR_IRI_SINKS = {"Path", "PurePath", "PurePosixPath", "PureWindowsPath", "setSystemId", "setPublicId", "URIRef", "urljoin", "guess_format",
+                     "absolutize", "fspath", "pathname2url", "open", "as_uri"}
+# the parsers of the six syntaxes of the property (RDF Patch, TriX, HexTuples are other properties' business)
+SIX_SYNTAX_PARSERS = ("rdflib.plugins.parsers.ntriples", "rdflib.plugins.parsers.nquads", "rdflib.plugins.parsers.notation3", "rdflib.plugins.parsers.trig",
+                      "rdflib.plugins.parsers.rdfxml", "rdflib.plugins.parsers.jsonld")
+# modules in which the prefix handed to bind() is a token the scanner has read with the grammar's prefix production
+PREFIX_IS_A_SCANNED_TOKEN = {
+    "rdflib.plugins.parsers.notation3": "the prefix is the PNAME_NS token SinkParser.qname() has scanned (name characters only), or a key of the table filled from it",
+    "rdflib.plugins.parsers.trig": "the keys of SinkParser._bindings, filled from scanned PNAME_NS tokens",
+}
+JSONLD_MODULES = ("rdflib.plugins.parsers.jsonld", "rdflib.plugins.shared.jsonld.context", "rdflib.plugins.shared.jsonld.util")
+
+
+def stream_name_rule(repo: Repo, rep: Report) -> None:
+    from vlib import h_c05 as H
+
+    # (v) the name of a stream is a path only if it is a string
+    R = "C05.v-a-stream-name-is-used-as-a-path-only-if-it-is-a-string"
+    rep.rule(R, "where parse() turns its source into an InputSource (rdflib.parser, Graph.parse, the parser plugins), the `name` attribute of a stream object reaches a call that "
+                "takes a path or an IRI (Path(), setSystemId(), URIRef(), urljoin(), guess_format() ...) only on the true side of an isinstance() test of that value against "
+                "string / path types (or inside a try that handles TypeError and AttributeError). hasattr(f, 'name') is not enough: a stream opened on a file descriptor or a "
+                "pipe (open(fd, 'rb'), os.fdopen, sys.stdin.buffer of a subprocess) has an int as name, BytesIO has none - parse(file=...) of a legal document raised TypeError / AttributeError", floor=3)
+    mods = [repo.mod(n) for n in ("rdflib.parser", "rdflib.graph", "rdflib.util")] + _parser_modules(repo)
+    for m in mods:
+        for q, f in m.functions():
+            reads = H.attr_reads(f, "name")
+            if not reads:
+                continue
+            recv_of: dict[int, str] = {id(n): r for n, r in reads}
+            # locals bound to such a read (directly, or through a conditional / boolean expression around it)
+            local_recv: dict[str, set] = {}
+            for st in own_nodes(f):
+                if isinstance(st, (ast.Assign, ast.AnnAssign)) and getattr(st, "value", None) is not None:
+                    tg = st.targets if isinstance(st, ast.Assign) else [st.target]
+                    rs = {recv_of[id(x)] for x in ast.walk(st.value) if id(x) in recv_of and not any(
+                        isinstance(c, ast.Call) and c is not x and any(x is y for a in c.args for y in ast.walk(a)) for c in ast.walk(st.value))}
+                    for t in tg:
+                        if isinstance(t, ast.Name) and rs:
+                            local_recv.setdefault(t.id, set()).update(rs)
+
+            def receivers(e: ast.AST) -> set:
+                """the stream(s) whose name the expression e carries"""
+                out = set()
+                for x in ast.walk(e):
+                    if id(x) in recv_of:
+                        out.add(recv_of[id(x)])
+                    elif isinstance(x, ast.Name) and isinstance(x.ctx, ast.Load) and x.id in local_recv:
+                        out |= local_recv[x.id]
+                return out
+
+            for c in own_nodes(f):
+                if not (isinstance(c, ast.Call) and norm(c.func).split(".")[-1] in PATH_OR_IRI_SINKS):
+                    continue
+                for a in list(c.args) + [k.value for k in c.keywords]:
+                    for recv in sorted(receivers(a)):
+                        why = None
+                        for g in H.positive_guards(m, f, c):
+                            for t in ast.walk(g):
+                                if isinstance(t, ast.Call) and isinstance(t.func, ast.Name) and t.func.id == "isinstance" and len(t.args) == 2 and recv in receivers(t.args[0]):
+                                    types = {norm(x).split(".")[-1] for x in (t.args[1].elts if isinstance(t.args[1], ast.Tuple) else [t.args[1]])}
+                                    if types and not (types & {"int", "object", "Any"}):
+                                        why = "under isinstance(.., %s)" % "/".join(sorted(types))
+                        if why is None:
+                            for p in m.parents(c):
+                                if isinstance(p, ast.Try) and any(c is x for s_ in p.body for x in ast.walk(s_)):
+                                    caught = {norm(x).split(".")[-1] for h in p.handlers for x in ([h.type] if h.type is not None and not isinstance(h.type, ast.Tuple) else (h.type.elts if h.type is not None else []))}
+                                    if any(h.type is None for h in p.handlers) or caught & {"Exception", "BaseException"} or {"TypeError", "AttributeError"} <= caught:
+                                        why = "inside a try that handles TypeError and AttributeError"
+                                if p is f:
+                                    break
+                        rep.ob(R, m, q, "name of %s -> %s" % (recv, canon(c)[:80]), why is not None, why or
+                               "the name of the stream %s reaches %s() without a test that it is a string: for a stream opened on a file descriptor (name is an int) or an "
+                               "in-memory stream (no name) parse() raises TypeError / AttributeError instead of reading the document" % (recv, norm(c.func)), node=c)
+                        rep.analysed("%s:%s" % (m.rel, q))
+
+
+def document_prefix_rule(repo: Repo, rep: Report) -> None:
+    from vlib import h_c05 as H
+
+    # (w) a string of the document becomes a namespace prefix only if it is an NCName
+    R = "C05.w-a-document-string-becomes-a-prefix-only-if-it-is-an-ncname"
+    rep.rule(R, "in the parsers of the six syntaxes every bind(<prefix>, <namespace>) with a prefix that is not a constant gets a prefix that is an NCName by construction "
+                "(the prefix parameter of the SAX callback startPrefixMapping: the XML parser has checked it; a prefix token the Turtle-family scanner has read: table "
+                "PREFIX_IS_A_SCANNED_TOKEN) or stands on the true side of is_ncname(<prefix>). JSON-LD term names are arbitrary JSON strings: binding \"my vocab\" made parse() "
+                "raise KeyError, \"1st\" / \"a<b\" became prefixes that the RDF/XML and Turtle writers put into malformed documents", floor=4)
+    for name in SIX_SYNTAX_PARSERS:
+        m = repo.mod(name)
+        for q, f in m.functions():
+            for c in own_nodes(f):
+                if not (isinstance(c, ast.Call) and isinstance(c.func, ast.Attribute) and c.func.attr == "bind"):
+                    continue
+                pre = c.args[0] if c.args else next((k.value for k in c.keywords if k.arg == "prefix"), None)
+                if pre is None or isinstance(pre, ast.Constant):
+                    continue
+                rep.analysed("%s:%s" % (m.rel, q))
+                why = None
+                if isinstance(pre, ast.Name) and f.name == "startPrefixMapping" and pre.id in H.params(f) and not H.local_defs(f, pre.id):
+                    why = "prefix parameter of the SAX callback: an NCName (or None) by XML namespace well-formedness"
+                elif name in PREFIX_IS_A_SCANNED_TOKEN:
+                    why = "table: " + PREFIX_IS_A_SCANNED_TOKEN[name]
+                else:
+                    for g in H.positive_guards(m, f, c):
+                        if isinstance(g, ast.Call) and norm(g.func).split(".")[-1] == "is_ncname" and g.args and norm(g.args[0]) == norm(pre):
+                            why = "under is_ncname(%s)" % norm(pre)
+                rep.ob(R, m, q, canon(c), why is not None, why or
+                       "the string %s, taken from the document, becomes a namespace prefix without an NCName test: a JSON-LD term \"my vocab\" / \"1st\" / \"a<b\" with an IRI ending "
+                       "in a delimiter is bound as prefix (KeyError from the namespace trie, or malformed RDF/XML and Turtle output later)" % norm(pre), node=c)
+
+
+def xml_literal_rules(repo: Repo, rep: Report) -> None:
+    from vlib.cfg import CFG
+
+    m = repo.mod("rdflib.plugins.parsers.rdfxml")
+
+    def text_append(st: ast.AST):
+        """(owner, constants) if st adds to / sets the markup text `<owner>.object` of an XML literal"""
+        t = st.target if isinstance(st, ast.AugAssign) else (st.targets[0] if isinstance(st, ast.Assign) and len(st.targets) == 1 else None)
+        if isinstance(t, ast.Attribute) and t.attr == "object":
+            return norm(t.value), [k.value for k in ast.walk(st.value) if isinstance(k, ast.Constant) and isinstance(k.value, str)]
+        return None
+
+    def lead_const(e: ast.AST):
+        """the constant text a string-building expression starts with ('<%s' % x, f'<{x}', '<' + x)"""
+        if isinstance(e, ast.Constant):
+            return e.value if isinstance(e.value, str) else None
+        if isinstance(e, ast.BinOp) and isinstance(e.op, (ast.Mod, ast.Add)):
+            return lead_const(e.left)
+        if isinstance(e, ast.JoinedStr) and e.values:
+            return lead_const(e.values[0])
+        if isinstance(e, ast.Call) and isinstance(e.func, ast.Attribute) and e.func.attr == "format":
+            return lead_const(e.func.value)
+        return None
+
+    # (x) the table of declared namespaces and the text of the literal change together
+    RX = "C05.x-xml-literal-namespace-table-and-text-change-together"
+    rep.rule(RX, "RDF/XML parser, rdf:parseType=\"Literal\": the handler keeps the namespaces declared so far in the literal's text in `<element>.declared`. Every entry it adds "
+                 "there is followed, on every path to the end of the handler, by text with an xmlns declaration added to `<element>.object`; every entry it deletes follows the "
+                 "text of an undeclaration (xmlns=\"\"). An entry without its text gives a literal with an unbound prefix (<ex:p rdf:parseType=\"Literal\"><b a:x=\"1\"/> : "
+                 "the value `<b a:x=\"1\">` does not declare `a`), and the following elements believe it declared", floor=3)
+    # (y) a name written without a prefix fixes the default namespace
+    RY = "C05.y-unprefixed-name-in-an-xml-literal-settles-the-default-namespace"
+    rep.rule(RY, "RDF/XML parser, rdf:parseType=\"Literal\": on every path that writes a start tag without a prefix (\"<%s\" % local) a default-namespace declaration "
+                 "(text containing xmlns=\"...) for `<element>.object` is reachable before the handler ends - xmlns=\"ns\" for an element of the default namespace, xmlns=\"\" "
+                 "for an element in no namespace under an element that has declared one. Without it <d xmlns=\"http://d/\"><e xmlns=\"\"/></d> is read as a literal in "
+                 "which <e> has moved into http://d/", floor=2)
+    nx = ny = 0
+    for q, f in m.functions():
+        muts, appends, starts = [], [], []
+        for st in own_nodes(f):
+            if isinstance(st, (ast.Assign, ast.AugAssign)):
+                ta = text_append(st)
+                if ta is not None:
+                    owner, consts = ta
+                    if any("xmlns" in k for k in consts):
+                        appends.append((st, consts))
+                    if isinstance(st, ast.Assign) and not isinstance(st.value, ast.Constant) and consts and lead_const(st.value) is not None and lead_const(st.value).startswith("<") \
+                            and not lead_const(st.value).startswith("</") and not any(":" in k for k in consts):
+                        starts.append(st)
+                if isinstance(st, ast.Assign):
+                    for t in st.targets:
+                        if isinstance(t, ast.Subscript) and isinstance(t.value, ast.Attribute) and t.value.attr == "declared":
+                            muts.append((st, "add"))
+            if isinstance(st, ast.Delete):
+                for t in st.targets:
+                    if isinstance(t, ast.Subscript) and isinstance(t.value, ast.Attribute) and t.value.attr == "declared":
+                        muts.append((st, "delete"))
+            if isinstance(st, ast.Expr) and isinstance(st.value, ast.Call) and isinstance(st.value.func, ast.Attribute) and isinstance(st.value.func.value, ast.Attribute) \
+                    and st.value.func.value.attr == "declared" and st.value.func.attr in ("update", "setdefault", "pop", "popitem", "clear"):
+                muts.append((st, "delete" if st.value.func.attr in ("pop", "popitem", "clear") else "add"))
+        if not muts and not starts:
+            continue
+        g = CFG(f)
+        rep.analysed("%s:%s" % (m.rel, q))
+        decl_nodes = {g.node_of(st) for st, _ in appends}
+        undecl_nodes = {g.node_of(st) for st, consts in appends if any('xmlns=""' in k for k in consts)}
+        default_nodes = {g.node_of(st) for st, consts in appends if any('xmlns="' in k for k in consts)}
+        for st, kind in muts:
+            nx += 1
+            if kind == "add":
+                ok = bool(decl_nodes) and g.must_pass_after(g.node_of(st), decl_nodes)
+                rep.ob(RX, m, q, canon(st), ok, "followed by the text of the declaration on every path" if ok else
+                       "the namespace is recorded as declared but the handler can end without having added an xmlns declaration to the text: the literal uses a prefix it does not "
+                       "declare (<b a:x=\"1\"/> inside rdf:parseType=\"Literal\": unbound prefix `a`)", node=st)
+            else:
+                ok = bool(undecl_nodes) and g.must_pass_before(g.node_of(st), undecl_nodes)
+                rep.ob(RX, m, q, canon(st), ok, "after the text of the undeclaration" if ok else
+                       "an entry of the declared namespaces is dropped on a path that has not written xmlns=\"\": the text still declares it", node=st)
+        for st in starts:
+            ny += 1
+            ok = bool(default_nodes & g.reach(g.node_of(st)))
+            rep.ob(RY, m, q, canon(st), ok, "a default-namespace (un)declaration can follow" if ok else
+                   "after this start tag without a prefix no path adds a default-namespace declaration: an element in no namespace inside an element that declared "
+                   "xmlns=\"http://d/\" is written as <e> and moves into http://d/ (it needs xmlns=\"\")", node=st)
+    if nx == 0 or ny == 0:
+        raise AnalysisError("rdfxml parser: the XML-literal handler no longer keeps `.declared` / writes start tags into `.object` (literal_element_start did)")
+
+
+def jsonld_position_rules(repo: Repo, rep: Report) -> None:
+    from vlib import h_c05 as H
+
+    mods = [repo.mod(n) for n in JSONLD_MODULES]
+
+    # (z) what only the caller knows comes from the caller
+    R = "C05.z-jsonld-decisions-about-a-node-s-position-come-from-the-caller"
+    rep.rule(R, "JSON-LD parser: the same node object means different things depending on where it stands, which only the caller knows. (1) the choice between a graph named "
+                "by the node (dataset.get_context(<node>)) and the enclosing graph for the content of @graph: at the top level an object with @graph and no @id is the "
+                "default graph, as the value of a property ({\"@id\": \"ex:s\", \"ex:p\": {\"@graph\": [...]}}) it is a graph named by the blank node; (2) in Context, the choice "
+                "between a context and the one it falls back to when it does not propagate (its parent chain), where a method hands out one of the two: a context with \"@propagate\": false applies to the node that "
+                "carries it and not to the nodes nested in it. Either choice must depend on a parameter whose value goes back, through the call sites, to a truth constant "
+                "that a call site writes down; a test on the node / the context alone decides both positions alike", floor=2)
+    ctx_mod = repo.mod("rdflib.plugins.shared.jsonld.context")
+    walkers = {mn for mn, mf in ctx_mod.methods("Context").items() if len(H.params(mf)) == 1 and any(isinstance(x, ast.Attribute) and x.attr == "parent" and isinstance(x.ctx, ast.Load) for x in own_nodes(mf))}
+
+    def reaches_parent(e: ast.AST) -> bool:
+        return any((isinstance(x, ast.Attribute) and x.attr == "parent") or (isinstance(x, ast.Call) and isinstance(x.func, ast.Attribute) and x.func.attr in walkers) for x in ast.walk(e))
+
+    def handed_out(f: ast.AST, sel: ast.AST, value: ast.AST) -> bool:
+        """the selected context itself is what the function returns (directly, or through the local it is bound to) - not a context newly derived from it"""
+        names = set()
+        for st in own_nodes(f):
+            if isinstance(st, ast.Return) and st.value is not None and (st.value is sel or st.value is value):
+                return True
+            if isinstance(st, (ast.Assign, ast.AnnAssign)) and getattr(st, "value", None) is not None and (st.value is sel or st.value is value):
+                names |= {t.id for t in (st.targets if isinstance(st, ast.Assign) else [st.target]) if isinstance(t, ast.Name)}
+        return any(isinstance(st, ast.Return) and isinstance(st.value, ast.Name) and st.value.id in names for st in own_nodes(f))
+
+    n_graph = n_ctx = 0
+    for m in mods:
+        for q, f in m.functions():
+            ps = H.params(f)
+            own = ps[1:] if "." in q and ps else ps
+            self_name = ps[0] if "." in q and ps else None
+            for node, test, a, b in H.alternatives(m, f):
+                def is_named_graph(e):
+                    return isinstance(e, ast.Call) and isinstance(e.func, ast.Attribute) and e.func.attr == "get_context"
+                kind = None
+                if (is_named_graph(a) and isinstance(b, ast.Name) and b.id in own) or (is_named_graph(b) and isinstance(a, ast.Name) and a.id in own):
+                    kind = "graph"
+                elif m is ctx_mod and q.startswith("Context.") and own and self_name and handed_out(f, node, a) and (
+                        (isinstance(a, ast.Name) and a.id == self_name and reaches_parent(b)) or (isinstance(b, ast.Name) and b.id == self_name and reaches_parent(a))):
+                    kind = "context"
+                if kind is None:
+                    continue
+                if kind == "graph":
+                    n_graph += 1
+                else:
+                    n_ctx += 1
+                rep.analysed("%s:%s" % (m.rel, q))
+                read = {n.id for e in H.closure_exprs(f, test) for n in ast.walk(e) if isinstance(n, ast.Name)}
+                found = None
+                for p in own:
+                    if p in read:
+                        found = H.caller_constant(mods, f.name, f, p)
+                        if found is not None:
+                            found = (p,) + found
+                            break
+                what = "named graph or enclosing graph" if kind == "graph" else "the context or the one it falls back to"
+                rep.ob(R, m, q, "%s: %s" % (what, canon(ast.IfExp(test=test, body=a, orelse=b))[:100]), found is not None,
+                       "depends on parameter %s, set by %s (%s)" % (found[0], found[2], norm(found[3])) if found else
+                       ("the choice reads %s, nothing of which goes back to a truth constant written at a call site: it cannot tell the positions apart. " % (
+                           ("the parameters %s" % sorted(read & set(own))) if read & set(own) else "no parameter") +
+                        ("{\"@id\": \"ex:s\", \"ex:p\": {\"@graph\": [{\"@id\": \"ex:a\", \"ex:q\": \"v\"}]}} puts ex:a ex:q \"v\" into the enclosing graph instead of the graph named by the value"
+                         if kind == "graph" else
+                         "{\"@context\": {\"@propagate\": false, \"t\": \"http://e/t\"}, \"@id\": \"http://e/s\", \"t\": \"v\"} loses the context for the node that carries it (AttributeError at the top level)")),
+                       node=node)
+    if n_graph == 0:
+        raise AnalysisError("jsonld parser: no choice between dataset.get_context(..) and the enclosing graph found (Parser._key_to_graph had one)")
+    if n_ctx == 0:
+        raise AnalysisError("jsonld Context: no choice between a context and its non-propagating fallback found (Context.get_context_for_type had one)")
+
+    # (z2) the parent of a context may be missing
+    R2 = "C05.z2-an-optional-context-is-not-dereferenced"
+    rep.rule(R2, "JSON-LD modules: no attribute is taken of an expression whose static type is `Context | None` (the parent of the root context, the result of a lookup) - the "
+                 "type checker's own rule, here without the `# type: ignore` escape. {\"@context\": {\"@propagate\": false}, \"@id\": \"http://e/s\", \"http://e/p\": \"v\"} has a "
+                 "non-propagating context without a parent: stepping to `parent` and using it made parse() raise AttributeError", floor=20)
+    for m in mods + [repo.mod("rdflib.plugins.serializers.jsonld")]:
+        for q, f in m.functions():
+            n_ok = 0
+            for n in own_nodes(f):
+                if not isinstance(n, ast.Attribute):
+                    continue
+                t = repo.typed.type_of(m.name, n.value)
+                if t is None or not any(i.endswith(".Context") for i in t.items):
+                    continue
+                if t.optional:
+                    rep.ob(R2, m, q, canon(n), False, "%s has type %s: for a context without a parent it is None and .%s raises AttributeError" % (norm(n.value), t.text, n.attr), node=n)
+                else:
+                    n_ok += 1
+            if n_ok:
+                rep.ob(R2, m, q, "%d attribute accesses on Context values" % n_ok, True, "none of them optional", node=f)
+                rep.analysed("%s:%s" % (m.rel, q))
+
+
+_run_base5 = run
+
+
+def run(repo: Repo, rep: Report) -> None:  # noqa: F811
+    _layer(rep, _run_base5, repo)
+    rep.extra["explanation"] = rep.extra.get("explanation", "") + (
+        " Rules v-z: a stream's name is used as a path / IRI only when it is a string; a string of the document becomes a namespace prefix only as an NCName; the RDF/XML "
+        "parser's XML literals declare every namespace they record and can (un)declare the default namespace wherever they write an unprefixed name; the two decisions of "
+        "the JSON-LD parser that depend on a node's position (named graph or enclosing graph, own context or inherited one) are driven by the caller; an optional Context "
+        "is never dereferenced.")
+    for group in (stream_name_rule, document_prefix_rule, xml_literal_rules, jsonld_position_rules):
+        _layer(rep, group, repo)
+
 
 
 _run_before_borrow = run
 
 
 def run(repo: Repo, rep: Report) -> None:  # noqa: F811
-    _run_before_borrow(repo, rep)
+    _layer(rep, _run_before_borrow, repo)
     from vlib.core import borrow
 
     borrow(repo, rep, "C05", "C12", ('C12.b2',))
